@@ -52,4 +52,45 @@ for preserve in (None, set(), {"p1"}, {"p1", "p2"}):
             verdict(True, "_clear_obsolete_packs deleted a preserved pack file", input=dict(preserve=sorted(preserve)), observed=sorted(left))
     if sorted(found) != ["p1", "p2"]:
         verdict(True, "_clear_obsolete_packs reported the wrong packs", observed=sorted(found))
+
+# the rely point of the contract: another writer rewrites pack-names right before we obtain the names lock
+import os, shutil, tempfile
+import breezy.bzr  # noqa
+from breezy import controldir
+from breezy.repository import Repository
+base = tempfile.mkdtemp(prefix="c05_")
+try:
+    fmt = controldir.format_registry.make_controldir("2a")
+    rd = os.path.join(base, "repo"); os.mkdir(rd)
+    fmt.initialize(rd).create_repository(shared=True)
+    wts = {}
+    for n in ("a", "b"):
+        br = controldir.ControlDir.create_branch_convenience(os.path.join(rd, n), force_new_tree=True, format=fmt)
+        wt = br.controldir.open_workingtree()
+        open(os.path.join(rd, n, "f"), "w").write(n + "\n"); wt.add(["f"])
+        wts[n] = wt
+    r0 = wts["a"].commit("base", committer="t <t@e.x>")
+    coll = wts["a"].branch.repository._pack_collection
+    real_lock, done = coll.lock_names, {}
+
+    def lock_after_other_writer():
+        if "b" not in done:
+            done["b"] = wts["b"].commit("other writer", committer="t <t@e.x>")
+        return real_lock()
+    coll.lock_names = lock_after_other_writer
+    open(os.path.join(rd, "a", "f"), "a").write("more\n")
+    ra = wts["a"].commit("ours", committer="t <t@e.x>")
+    coll.lock_names = real_lock
+    tried += 1
+    fresh = Repository.open(rd)
+    with fresh.lock_read():
+        listed = set(fresh.all_revision_ids())
+        missing = [r for r in (r0, ra, done.get("b")) if r not in listed]
+        if missing:
+            verdict(True, "a revision committed by a concurrent writer right before we took the names lock is no longer listed: "
+                          "the list written was not the merge with what is on disk under the lock",
+                    input="A: _save_pack_names; B: complete commit just before A's lock_names() returns",
+                    observed="missing %r, pack-names %r" % (missing, fresh._pack_collection.names()))
+finally:
+    shutil.rmtree(base, ignore_errors=True)
 verdict(False, "no failing input among %d" % tried)
